@@ -166,7 +166,7 @@ func (e *btEnv) violation(what string) {
 		return
 	}
 	e.st.Violations = append(e.st.Violations, hx.Violation{
-		Property: "C17", Stream: e.st.Stream, Seed: e.cfg.Seed, Program: e.prog, Step: e.step, What: what, Trace: e.w.Path,
+		Property: "C17", Stream: e.st.Stream, Seed: e.cfg.Seed, Program: e.prog, Step: e.step, What: what, Trace: e.w.Path, Line: e.w.Lines,
 	})
 	// a slab whose reported size is not the size of its encoding also breaks C06 (sizes of EVERY
 	// slab of every reachable container, bulk-built ones included), a structurally invalid result C05
@@ -179,7 +179,7 @@ func (e *btEnv) violation(what string) {
 	}
 	for _, p := range also {
 		e.st.Violations = append(e.st.Violations, hx.Violation{
-			Property: p, Stream: e.st.Stream, Seed: e.cfg.Seed, Program: e.prog, Step: e.step, What: what, Trace: e.w.Path,
+			Property: p, Stream: e.st.Stream, Seed: e.cfg.Seed, Program: e.prog, Step: e.step, What: what, Trace: e.w.Path, Line: e.w.Lines,
 		})
 	}
 }
